@@ -226,12 +226,23 @@ func c08(args []string) {
 					}
 					eval := func(emit bool) string {
 						var sum strings.Builder
-						for _, rowc := range m.Signals {
+						for si, rowc := range m.Signals {
 							for i := range rowc {
 								cell := &rowc[i]
 								ev := c08Event{Fam: fam, Con: con, Sig: int(cell.ID), Whole: int(cell.Satellite.RangeWholeMillis), Frac: int(cell.Satellite.RangeFractionalMillis),
-									Fine: cell.RangeDelta, Phase: cell.PhaseRangeDelta}
+									Fine: cell.RangeDelta, Phase: cell.PhaseRangeDelta, Floats: []string{}}
+								// the quantities of the formulas are the TRANSMITTED ones: what the decoder hands over is what was sent
+								sent := "a decoded field differs from the transmitted one"
+								if si < nsat && len(rowc) == nsig && len(m.Signals) == nsat {
+									tx, sat := s.Cell[si*nsig+i], s.Sat[si]
+									if int64(cell.RangeDelta) == tx[0] && int64(cell.PhaseRangeDelta) == tx[1] && int64(cell.Satellite.RangeWholeMillis) == sat[0] && int64(cell.Satellite.RangeFractionalMillis) == sat[1] {
+										sent = ""
+									}
+								}
 								ev.Panic = tr.Recover(func() {
+									if sent != "" {
+										panic(sent)
+									}
 									aR, aP := cell.GetAggregateRange(), cell.GetAggregatePhaseRange()
 									ev.AggRange, ev.AggPhase = split(aR, k.RangeRadix), split(aP, k.PhaseRadix)
 									text := cell.String()
@@ -259,12 +270,23 @@ func c08(args []string) {
 					}
 					eval := func(emit bool) string {
 						var sum strings.Builder
-						for _, rowc := range m.Signals {
+						for si, rowc := range m.Signals {
 							for i := range rowc {
 								cell := &rowc[i]
 								ev := c08Event{Fam: fam, Con: con, Sig: int(cell.ID), Whole: int(cell.Satellite.RangeWholeMillis), Frac: int(cell.Satellite.RangeFractionalMillis),
-									Fine: cell.RangeDelta, Phase: cell.PhaseRangeDelta, RoughRate: cell.Satellite.PhaseRangeRate, FineRate: cell.PhaseRangeRateDelta}
+									Fine: cell.RangeDelta, Phase: cell.PhaseRangeDelta, RoughRate: cell.Satellite.PhaseRangeRate, FineRate: cell.PhaseRangeRateDelta, Floats: []string{}}
+								sent := "a decoded field differs from the transmitted one"
+								if si < nsat && len(rowc) == nsig && len(m.Signals) == nsat {
+									tx, sat := s.Cell[si*nsig+i], s.Sat[si]
+									if int64(cell.RangeDelta) == tx[0] && int64(cell.PhaseRangeDelta) == tx[1] && int64(cell.PhaseRangeRateDelta) == tx[5] && int64(cell.Satellite.RangeWholeMillis) == sat[0] &&
+										int64(cell.Satellite.RangeFractionalMillis) == sat[2] && int64(cell.Satellite.PhaseRangeRate) == sat[3] {
+										sent = ""
+									}
+								}
 								ev.Panic = tr.Recover(func() {
+									if sent != "" {
+										panic(sent)
+									}
 									aR, aP, aV := cell.GetAggregateRange(), cell.GetAggregatePhaseRange(), cell.GetAggregatePhaseRangeRate()
 									ev.AggRange, ev.AggPhase, ev.AggRate = split(aR, k.RangeRadix), split(aP, k.PhaseRadix), aV
 									text := cell.String()
